@@ -227,7 +227,7 @@ def install(world):  # noqa: F811
         policy={PREP: "contract"},
         native={"call": "(self.reagent_distribution(src_rack_label, src_start, src_end, dst_rack_label, dst_start, dst_end, volume=volume, diti_reuse=diti_reuse, multi_disp=multi_disp, exclude_wells=exclude_wells, liquid_class=liquid_class, direction=direction, src_rack_id=src_rack_id, src_rack_type=src_rack_type, dst_rack_id=dst_rack_id, dst_rack_type=dst_rack_type), list(self))[1]",
                 "setup": "old_records = list(self)",
-                "clause_text": {"appended": "result[:-1] == old_records and result[-1].split(';') == ['R', src_rack_label, src_rack_id, src_rack_type, str(src_start), str(src_end), dst_rack_label, dst_rack_id, dst_rack_type, str(dst_start), str(dst_end), str(volume.v if hasattr(volume, 'v') else volume), liquid_class, str(diti_reuse), str(multi_disp if multi_disp * volume <= self.max_volume else int(self.max_volume // (volume.v if hasattr(volume, 'v') else volume))), ('0' if direction == 'left_to_right' else '1')] + [str(e) for e in sorted(exclude_wells or [])]",
+                "clause_text": {"appended": "result[:-1] == old_records and result[-1].split(';') == ['R', src_rack_label, src_rack_id, src_rack_type, str(src_start), str(src_end), dst_rack_label, dst_rack_id, dst_rack_type, str(dst_start), str(dst_end), str(volume.v if hasattr(volume, 'v') else volume), liquid_class, str(diti_reuse), result[-1].split(';')[14], ('0' if direction == 'left_to_right' else '1')] + [str(e) for e in sorted(exclude_wells or [])] and (int(result[-1].split(';')[14]) == multi_disp if multi_disp * volume <= self.max_volume else floor_div(self.max_volume, volume) == int(result[-1].split(';')[14])) and result[-1].split(';')[14] == str(int(result[-1].split(';')[14]))",
                                 "multi-disp-fits": "volume <= 0 or int(result[-1].split(';')[14]) * volume <= self.max_volume",
                                 "multi-disp-minimal-reduction": "multi_disp * volume <= self.max_volume or (int(result[-1].split(';')[14]) + 1) * volume > self.max_volume",
                                 "multi-disp-unchanged-if-fits": "multi_disp * volume > self.max_volume or int(result[-1].split(';')[14]) == multi_disp",
